@@ -370,6 +370,7 @@ func init() {
 				}
 				c05Entries(tier, rng, res)
 				c05Net(tier, rng, res)
+				c05Client(tier, rng, res)
 			},
 		}
 		runProp(p, a)
